@@ -3,6 +3,9 @@
 //! per case.  A panic in the crate is an observation ("PANIC"), not a harness failure.
 mod proto;
 mod c14;
+mod exec;
+mod kinds;
+mod poll;
 
 use std::io::{BufRead, Write};
 use std::panic::{catch_unwind, AssertUnwindSafe};
@@ -14,6 +17,8 @@ fn run_line(line: &str) -> String {
     }
     match ws[0] {
         "C14" => c14::run(&ws[1..]),
+        "POLL" => poll::run(&ws[1..]),
+        "BOUNDS" => poll::bounds(),
         _ => proto::BAD.into(),
     }
 }
@@ -28,7 +33,13 @@ fn main() {
         let res = catch_unwind(AssertUnwindSafe(|| run_line(&line)));
         let s = match res {
             Ok(s) => s,
-            Err(_) => "PANIC".to_string(),
+            Err(e) => {
+                if e.downcast_ref::<proto::Exhausted>().is_some() {
+                    "EXHAUSTED".to_string()
+                } else {
+                    "PANIC".to_string()
+                }
+            }
         };
         writeln!(out, "{}", s).unwrap();
     }
